@@ -11,10 +11,13 @@ import sys
 
 PROP = "C09"
 RULE = ("operation sequences define / redefine / del / rebind / container put / drop / file reload / file delete / "
-        "unload over factory-created closures carrying any mix of @state_trigger (1-2 decorators, names of one entity "
+        "unload over factory-created closures in one or two script files (global contexts; a family where both "
+        "compete for one @service name: second claim refused, then the owner is deleted / redefined / reloaded / its "
+        "file deleted) carrying any mix of @state_trigger (1-2 decorators, names of one entity "
         "as value/.old/.attr and of several entities), @event_trigger, @service, @time_trigger(startup/shutdown); after "
         "each operation gc.collect()+settle, then probe occurrences (every probe entity changes, every probe event "
-        "fires); both subsystems; hash seeds 0-7.  Non-trivial: at least one generation is deactivated; distinct by payload.")
+        "fires, every declared service that exists is called); observed: State.notify, Event.notify, bus listeners, "
+        "has_service, Function.service_cnt, Function.service2global_ctx, runs; both subsystems; hash seeds 0-7.  Non-trivial: at least one generation is deactivated; distinct by payload.")
 ASSUMPTIONS = [
     "CPython finalises an unreferenced EvalFuncVar (refcount 0 -> __del__ / weakref.finalize) before the next "
     "observation: the harness calls gc.collect() and settles the loop after every operation (model: `sweep`)",
@@ -28,7 +31,8 @@ TRUSTED = ["harness/run_C09.py (script generator, observation, reference-count o
 # commit a7dbc5e of /repo (`delContinuesNow`); 0 = the pre-fix loop (`return`, `delContinuesPreFix`, finding C09-F1).
 # The correspondence check certifies the value: against a pre-fix tree impl != model AND the oracle reports the leak.
 DEL_CONTINUES = 1
-CTX = "file.t"
+FILES = {"t": "file.t", "u": "file.u"}     # two script files = two global contexts
+SHARED = "shared"                           # the service name both contexts compete for (`pyscript.shared`)
 ENTS = ["pyscript.a", "pyscript.b", "pyscript.c"]
 EVS = ["ev1", "ev2"]
 NAMES = ["f0", "f1", "f2"]
@@ -88,9 +92,58 @@ def gen_case(rng, family, legacy, hashseed):
     return {"family": family, "legacy": legacy, "hashseed": hashseed, "ops": ops}
 
 
-def D(name, gen, states=(), events=(), services=(), su=False, sd=False):
-    return {"op": "define", "name": name, "gen": gen, "states": [list(s) for s in states], "events": list(events),
-            "services": list(services), "su": su, "sd": sd}
+def gen_case_svc(rng, legacy, hashseed):
+    """two contexts competing for one service name: the first claim owns it, a claim from the other context is
+    refused; then the owner is deleted / redefined / its file reloaded or deleted / everything unloaded.  Only `f0` of
+    each file ever carries the shared name and it is never rebound or put into a container (several live claims
+    inside ONE context are C12's subject); `f1`/`f2` carry ordinary triggers."""
+    ops = []
+    gen = 0
+    alive = {"t": True, "u": True}
+    first = rng.choice(["t", "u"])
+    other = "u" if first == "t" else "t"
+
+    def claim(f, with_state):
+        nonlocal gen
+        d = {"op": "define", "file": f, "name": "f0", "gen": gen,
+             "states": [list(rng.choice(CLEAN_SETS))] if with_state else [], "events": [],
+             "services": [SHARED], "su": False, "sd": False}
+        gen += 1
+        return d
+    ops.append(claim(first, rng.random() < 0.3))
+    for _ in range(rng.choice([3, 4, 5, 6])):
+        live = [f for f in ("t", "u") if alive[f]]
+        if not live:
+            break
+        f = rng.choice(live)
+        r = rng.random()
+        if r < 0.34:
+            ops.append(claim(f, rng.random() < 0.3))
+        elif r < 0.52:
+            ops.append({"op": "del", "file": f, "name": "f0"})
+        elif r < 0.62:
+            d = gen_define(rng, gen, False)
+            d["file"], d["name"] = f, rng.choice(["f0", "f1", "f2"])
+            gen += 1
+            ops.append(d)
+        elif r < 0.70:
+            ops.append({"op": "rebind", "file": f, "dst": "f2", "src": "f1"})
+        elif r < 0.76:
+            ops.append({"op": "put", "file": f, "slot": 0, "name": "f1"})
+        elif r < 0.90:
+            ops.append({"op": "reloadfile", "file": f})
+        else:
+            ops.append({"op": "deletefile", "file": f})
+            alive[f] = False
+    if alive[other] and rng.random() < 0.7:
+        ops.append(claim(other, False))
+    ops.append({"op": "unloadall"})
+    return {"family": "svc", "legacy": legacy, "hashseed": hashseed, "ops": ops}
+
+
+def D(name, gen, states=(), events=(), services=(), su=False, sd=False, file="t"):
+    return {"op": "define", "file": file, "name": name, "gen": gen, "states": [list(s) for s in states],
+            "events": list(events), "services": list(services), "su": su, "sd": sd}
 
 
 def fixed_cases():
@@ -111,6 +164,17 @@ def fixed_cases():
             {"op": "drop", "slot": 0}, {"op": "reloadfile"},
             D("f0", 3, [["pyscript.a", "pyscript.b"]], ["ev2"], [], su=True),
             {"op": "deletefile"}]})
+        # two contexts compete for `pyscript.shared`: u's claim is refused while t owns the name; once t's function
+        # is gone (del / file delete) the name is free again and u can claim it
+        out.append({"family": "fixed", "legacy": legacy, "hashseed": 0, "ops": [
+            D("f0", 0, services=[SHARED], file="t"), D("f0", 1, services=[SHARED], file="u"),
+            {"op": "del", "file": "t", "name": "f0"}, D("f0", 2, services=[SHARED], file="u"),
+            D("f0", 3, [["pyscript.a"]], services=[SHARED], file="t"), {"op": "reloadfile", "file": "u"},
+            D("f0", 4, services=[SHARED], file="t"), {"op": "unloadall"}]})
+        out.append({"family": "fixed", "legacy": legacy, "hashseed": 0, "ops": [
+            D("f0", 0, services=[SHARED], file="t"), D("f0", 1, [["pyscript.b"]], services=[SHARED], file="u"),
+            {"op": "reloadfile", "file": "u"}, D("f0", 2, services=[SHARED], file="u"),
+            {"op": "deletefile", "file": "t"}, D("f0", 3, services=[SHARED], file="u"), {"op": "unloadall"}]})
     return out
 
 
@@ -124,8 +188,11 @@ def gen_cases(rng, tier, search):
         for p in fixed_cases():
             cases.append(common.Case(p, None, tags=(p["family"], "legacy" if p["legacy"] else "new")))
     for i in range(n):
-        family = "clean" if i % 2 == 0 else "dup"
-        base = gen_case(rng, family, True, HASHSEEDS[i % len(HASHSEEDS)])
+        family = ["clean", "dup", "svc", "dup"][i % 4]
+        if family == "svc":
+            base = gen_case_svc(rng, True, HASHSEEDS[i % len(HASHSEEDS)])
+        else:
+            base = gen_case(rng, family, True, HASHSEEDS[i % len(HASHSEEDS)])
         for legacy in (True, False):      # "both subsystems": every generated sequence runs under both
             p = json.loads(json.dumps(base))
             p["legacy"] = legacy
@@ -134,9 +201,18 @@ def gen_cases(rng, tier, search):
 
 
 # --------------------------------------------------------------------------------------------- the generated script
-def script_text(payload):
+def files_used(payload):
+    return sorted({o.get("file", "t") for o in payload["ops"]} | {"t"})
+
+
+def svc_names(payload):
+    """full names of all services any generation of the case declares"""
+    return sorted({"pyscript." + s for o in payload["ops"] if o["op"] == "define" for s in o["services"]})
+
+
+def script_text(payload, file="t"):
     lines = ["store = {}", "", "def mk(k):"]
-    defs = [o for o in payload["ops"] if o["op"] == "define"]
+    defs = [o for o in payload["ops"] if o["op"] == "define" and o.get("file", "t") == file]
     for d in defs:
         lines.append(f"    if k == {d['gen']}:")
         for names in d["states"]:
@@ -151,11 +227,11 @@ def script_text(payload):
             lines.append(f"        @time_trigger({', '.join(repr(x) for x in tt)})")
         lines.append("        def fn(**kw):")
         lines.append(f"            rec('run', {d['gen']}, kw.get('trigger_type'), kw.get('trigger_time'), "
-                     "kw.get('var_name'), kw.get('event_type'))")
+                     "kw.get('var_name'), kw.get('event_type'), kw.get('probe'))")
         lines.append("        return fn")
     if not defs:
         lines.append("    return None")
-    lines += ["", "@service", "def op(what=None, k=None, name=None, src=None, slot=None):", "    global f0, f1, f2"]
+    lines += ["", "@service", f"def op_{file}(what=None, k=None, name=None, src=None, slot=None):", "    global f0, f1, f2"]
     lines.append("    if what == 'define':")
     lines.append("        fn = mk(k)")
     for n in NAMES:
@@ -189,24 +265,28 @@ def _run_one(payload):
     from ha_env import run_ha
     from custom_components.pyscript.state import State
     from custom_components.pyscript.event import Event
+    from custom_components.pyscript.function import Function
     obs = []
+    svcs = svc_names(payload)
 
     async def body(env):
         hass = env.hass
         root = os.path.join(env.cfgdir, "pyscript")
-        src = script_text(payload)
+        used = files_used(payload)
+        src = {f: script_text(payload, f) for f in used}
         counter = [0]
         for e in ENTS:
             hass.states.async_set(e, "0", {"attr1": 0})
         await env.settle(0.01)
 
-        def write_file(bump):
-            p = os.path.join(root, "t.py")
+        def write_file(file, bump):
+            p = os.path.join(root, file + ".py")
             os.makedirs(root, exist_ok=True)
             with open(p, "w") as f:
-                f.write(src)
+                f.write(src[file])
             os.utime(p, (1000000 + bump, 1000000 + bump))
-        write_file(0)
+        for f in used:
+            write_file(f, 0)
         await env.reload()
         await env.settle(0.01)
         seen_q = set()
@@ -218,26 +298,27 @@ def _run_one(payload):
             env.records.clear()
             env.log.clear()
             k = o["op"]
+            fl = o.get("file", "t")
+            opsvc = "op_" + fl
             err = None
             try:
                 if k == "define":
-                    await env.call("pyscript", "op", {"what": "define", "k": o["gen"], "name": o["name"]})
+                    await env.call("pyscript", opsvc, {"what": "define", "k": o["gen"], "name": o["name"]})
                 elif k == "del":
-                    await env.call("pyscript", "op", {"what": "del", "name": o["name"]})
+                    await env.call("pyscript", opsvc, {"what": "del", "name": o["name"]})
                 elif k == "rebind":
-                    await env.call("pyscript", "op", {"what": "rebind", "name": o["dst"], "src": o["src"]})
+                    await env.call("pyscript", opsvc, {"what": "rebind", "name": o["dst"], "src": o["src"]})
                 elif k == "put":
-                    await env.call("pyscript", "op", {"what": "put", "slot": o["slot"], "name": o["name"]})
+                    await env.call("pyscript", opsvc, {"what": "put", "slot": o["slot"], "name": o["name"]})
                 elif k == "drop":
-                    await env.call("pyscript", "op", {"what": "drop", "slot": o["slot"]})
+                    await env.call("pyscript", opsvc, {"what": "drop", "slot": o["slot"]})
                 elif k == "reloadfile":
                     nreload += 1
-                    write_file(nreload)
+                    write_file(fl, nreload)
                     await env.reload()
                 elif k == "deletefile":
-                    os.unlink(os.path.join(root, "t.py"))
+                    os.unlink(os.path.join(root, fl + ".py"))
                     await env.reload()
-                    alive = False
                 elif k == "unloadall":
                     entries = hass.config_entries.async_entries("pyscript")
                     for entry in entries:
@@ -261,8 +342,10 @@ def _run_one(payload):
             ev = {ty: len(qs) for ty, qs in Event.notify.items() if len(qs)}
             lis = hass.bus.async_listeners()
             bus = {ty: lis.get(ty, 0) for ty in EVS if lis.get(ty, 0)}
-            svc = sorted(s for s in hass.services.async_services().get("pyscript", {}) if s.startswith("s")
-                         and s[1:].isdigit())
+            # services: what Home Assistant has, and pyscript's own bookkeeping (count, owning global context)
+            svc = sorted(n for n in svcs if hass.services.has_service(*n.split(".", 1)))
+            cnt = {n: Function.service_cnt.get(n, 0) for n in svcs if Function.service_cnt.get(n, 0)}
+            own = {n: Function.service2global_ctx[n] for n in svcs if n in Function.service2global_ctx}
             log = [(r[4], r[2]) for r in env.records if r[1] == "run" and r[3] == "time"]
             env.records.clear()
             runs = {}
@@ -279,14 +362,26 @@ def _run_one(payload):
                 for ty in EVS:
                     runs[ty] = sorted(r[2] for r in env.records if r[1] == "run" and r[3] == "event" and r[6] == ty)
                 env.records.clear()
+                # call every declared service that exists: which generation answers?
+                for n in svcs:
+                    runs[n] = []
+                    if n in svc:
+                        try:
+                            await env.call(*n.split(".", 1), {"probe": n})
+                        except Exception as e:  # pylint: disable=broad-except
+                            runs[n] = ["raise:" + type(e).__name__]
+                        await env.settle(0.01)
+                        runs[n] += sorted(r[2] for r in env.records if r[1] == "run" and r[3] == "service" and r[7] == n)
+                        env.records.clear()
             else:
-                runs = {p: [] for p in ENTS + EVS}
+                runs = {p: [] for p in ENTS + EVS + svcs}
             tasks = [t for t in asyncio.all_tasks() if not t.done() and
                      any(s in repr(t.get_coro()) for s in ("trigger_watch", "_cycle"))]
             errs = [l[2][-160:] for l in env.log if l[1] == "ERROR"]
-            obs.append({"st": st, "ev": ev, "bus": bus, "svc": svc, "log": log, "runs": runs, "orders": orders,
+            obs.append({"st": st, "ev": ev, "bus": bus, "svc": svc, "cnt": cnt, "own": own, "log": log, "runs": runs,
+                        "orders": orders,
                         "trigger_tasks": len(tasks), "err": err, "errors": errs[:3]})
-            if not alive:
+            if unloaded:
                 break
         return obs
 
@@ -362,32 +457,34 @@ def model_ops(payload):
         if idx >= len(obs):
             break
         k = o["op"]
+        ctx = FILES[o.get("file", "t")]
+        slot_base = 10 if o.get("file", "t") == "u" else 0
         if k == "define":
             orders = obs[idx].get("orders", []) if isinstance(obs[idx], dict) else []
             # both subsystems keep one queue per @state_trigger (legacy: one TrigInfo per decorator round)
             states = [[var_sx(n) for n in order_for(s, orders)] for s in o["states"]]
-            ops.append(["define", CTX, o["name"], states, o["events"], ["pyscript." + s for s in o["services"]],
+            ops.append(["define", ctx, o["name"], states, o["events"], ["pyscript." + s for s in o["services"]],
                         o["su"], o["sd"]])
         elif k == "del":
-            ops.append(["del", CTX, o["name"]])
+            ops.append(["del", ctx, o["name"]])
         elif k == "rebind":
-            ops.append(["rebind", CTX, o["dst"], o["src"]])
+            ops.append(["rebind", ctx, o["dst"], o["src"]])
         elif k == "put":
-            ops.append(["put", o["slot"], CTX, o["name"]])
+            ops.append(["put", o["slot"] + slot_base, ctx, o["name"]])
         elif k == "drop":
-            ops.append(["drop", o["slot"]])
+            ops.append(["drop", o["slot"] + slot_base])
         elif k in ("reloadfile", "deletefile"):
-            ops.append(["unloadctx", CTX])
+            ops.append(["unloadctx", ctx])
         elif k == "unloadall":
             ops.append(["unloadall"])
     return ops
 
 
-def block(st, ev, bus, svc, log, runs):
+def block(st, ev, bus, cnt, own, log, runs, svcs):
     def j(d):
         return "(" + " ".join(sorted(f"{k}:{v}" for k, v in d.items())) + ")"
-    r = " ".join(f"{p}:{','.join(str(x) for x in runs.get(p, []))}" for p in ENTS + EVS)
-    return (f"st={j(st)} ev={j(ev)} bus={j(bus)} svc=({' '.join(sorted('pyscript.' + s for s in svc))}) "
+    r = " ".join(f"{p}:{','.join(str(x) for x in runs.get(p, []))}" for p in ENTS + EVS + svcs)
+    return (f"st={j(st)} ev={j(ev)} bus={j(bus)} svc={j(cnt)} own={j(own)} "
             f"log=({' '.join(sorted(f'{a}:{b}' for a, b in log))}) runs=({r})")
 
 
@@ -403,10 +500,12 @@ def finish_case(c):
         if o.get("err"):
             blocks.append("raise:" + o["err"])
         else:
-            blocks.append(block(o["st"], o["ev"], o["bus"], o["svc"], [tuple(x) for x in o["log"]], o["runs"]))
+            blocks.append(block(o["st"], o["ev"], o["bus"], o["cnt"], o["own"], [tuple(x) for x in o["log"]], o["runs"],
+                                svc_names(c.payload)))
     c.impl = " | ".join(blocks)
     sub = "legacy" if c.payload["legacy"] else "new"
-    c.line = "C09 " + common.sx(["run", DEL_CONTINUES, sub, model_ops(c.payload), [e.split(".") for e in ENTS], EVS])
+    c.line = "C09 " + common.sx(["run", DEL_CONTINUES, sub, model_ops(c.payload), [e.split(".") for e in ENTS], EVS,
+                                     svc_names(c.payload)])
     c.nontrivial = any(o["op"] in ("del", "drop", "reloadfile", "deletefile", "unloadall") for o in c.payload["ops"])
 
 
@@ -416,42 +515,70 @@ def ent_of(name):
 
 
 def oracle(payload):
-    """reference semantics: a generation is active while a global variable or a container slot references it.
-    yields per op: expected tables for the ACTIVE generations only, expected runs per probe, expected startup /
-    shutdown runs – written from the property statement, independent of the Lean model"""
-    binds, slots, gens = {}, {}, {}
+    """reference semantics: a generation is active while a global variable or a container slot of a loaded context
+    references it.  A function whose @service names a service that a live function of ANOTHER global context owns is
+    refused (documented error: "can't register service ...; already defined in ..."): it gets no service and no triggers,
+    and the name stays with its owner until the owner's last declaring function is gone.
+    yields per op: expected tables for the ACTIVE generations only, expected runs per probe, expected services
+    (has_service / reference count / owning context), expected startup / shutdown runs – written from the property
+    statement, independent of the Lean model"""
+    binds = {f: {} for f in FILES}
+    slots = {f: {} for f in FILES}
+    gens, refused = {}, set()
     active_prev = set()
     out = []
     legacy = payload["legacy"]
+    svcs = svc_names(payload)
+    multi = len(files_used(payload)) > 1
+
+    def active_set():
+        a = set()
+        for f in FILES:
+            a |= set(binds[f].values()) | set(slots[f].values())
+        return a
     for o in payload["ops"]:
         k = o["op"]
+        f = o.get("file", "t")
         log = []
         if k == "define":
             gens[o["gen"]] = o
-            binds[o["name"]] = o["gen"]
-            if o["su"]:
+            # who holds the names this function wants, right now?
+            holders = {}
+            for g in active_set():
+                if g not in refused:
+                    for n in gens[g]["services"]:
+                        holders[n] = gens[g].get("file", "t")
+            if any(n in holders and holders[n] != f for n in o["services"]):
+                refused.add(o["gen"])
+            binds[f][o["name"]] = o["gen"]
+            if o["su"] and o["gen"] not in refused:
                 log.append(("startup", o["gen"]))
         elif k == "del":
-            binds.pop(o["name"], None)
+            binds[f].pop(o["name"], None)
         elif k == "rebind":
-            if o["src"] in binds:
-                binds[o["dst"]] = binds[o["src"]]
+            if o["src"] in binds[f]:
+                binds[f][o["dst"]] = binds[f][o["src"]]
         elif k == "put":
-            if o["name"] in binds:
-                slots[o["slot"]] = binds[o["name"]]
+            if o["name"] in binds[f]:
+                slots[f][o["slot"]] = binds[f][o["name"]]
         elif k == "drop":
-            slots.pop(o["slot"], None)
-        elif k in ("reloadfile", "deletefile", "unloadall"):
-            binds.clear()
-            slots.clear()
-        active = set(binds.values()) | set(slots.values())
+            slots[f].pop(o["slot"], None)
+        elif k in ("reloadfile", "deletefile"):
+            binds[f].clear()
+            slots[f].clear()
+        elif k == "unloadall":
+            for ff in FILES:
+                binds[ff].clear()
+                slots[ff].clear()
+        active = active_set()
         stopped = (active_prev | ({o["gen"]} if k == "define" else set())) - active
         for g in sorted(stopped):
-            if gens[g]["sd"]:
+            if gens[g]["sd"] and g not in refused:
                 log.append(("shutdown", g))
-        st, ev, bus, svc = {}, {}, {}, []
-        runs = {p: [] for p in ENTS + EVS}
-        for g in sorted(active):
+        st, ev, bus = {}, {}, {}
+        cnt, own = {}, {}
+        runs = {p: [] for p in ENTS + EVS + svcs}
+        for g in sorted(active - refused):
             d = gens[g]
             for s in d["states"]:       # one queue per @state_trigger in both subsystems
                 for e in {ent_of(n) for n in s}:
@@ -466,9 +593,17 @@ def oracle(payload):
                     bus[ty] = 1
                 else:
                     bus[ty] = bus.get(ty, 0) + 1
-            svc += d["services"]
-        out.append({"st": st, "ev": ev, "bus": bus, "svc": sorted(svc), "log": log, "runs": runs,
-                    "final": k in ("deletefile", "unloadall"), "active": sorted(active), "unloaded": k == "unloadall"})
+            for n in d["services"]:
+                full = "pyscript." + n
+                cnt[full] = cnt.get(full, 0) + 1
+                own[full] = FILES[d.get("file", "t")]
+                runs[full].append(g)
+        for full in runs:
+            if full in svcs and len(runs[full]) > 1:
+                runs[full] = [max(runs[full])]   # redefinition inside one context: the latest definition answers
+        out.append({"st": st, "ev": ev, "bus": bus, "svc": sorted(cnt), "cnt": cnt, "own": own, "log": log, "runs": runs,
+                    "final": k == "unloadall" or (k == "deletefile" and not multi), "active": sorted(active),
+                    "unloaded": k == "unloadall"})
         active_prev = active
     return out
 
@@ -487,7 +622,7 @@ def deviations(payload):
             devs.append(("raise", f"op {idx}: {o['err']}"))
             continue
         inactive_dups = bool(dup_gens - set(x["active"]))
-        for p in ENTS + EVS:
+        for p in ENTS + EVS + svc_names(payload):
             got, want = o["runs"].get(p, []), ([] if x["unloaded"] else x["runs"][p])
             for g in got:
                 if g not in want:
@@ -516,7 +651,14 @@ def deviations(payload):
         if o["svc"] != x["svc"]:
             extra = sorted(set(o["svc"]) - set(x["svc"]))
             devs.append(("leak:service" if extra else "missing:service",
-                         f"op {idx}: services {o['svc']} expected {x['svc']}"))
+                         f"op {idx}: registered services {o['svc']}, the referenced functions declare {x['svc']}"))
+        for n in sorted(set(o["cnt"]) | set(x["cnt"])):
+            a, b = o["cnt"].get(n, 0), x["cnt"].get(n, 0)
+            if a != b:
+                devs.append(("leak:service-count" if a > b else "missing:service-count",
+                             f"op {idx}: Function.service_cnt[{n}] = {a}, {b} referenced functions declare it"))
+        if o["own"] != x["own"]:
+            devs.append(("service-owner", f"op {idx}: Function.service2global_ctx {o['own']} expected {x['own']}"))
         if sorted(tuple(t) for t in o["log"]) != sorted(x["log"]):
             devs.append(("startup-shutdown", f"op {idx}: startup/shutdown runs {o['log']} expected {x['log']}"))
         if x["final"] and o["trigger_tasks"]:
@@ -526,7 +668,8 @@ def deviations(payload):
 
 ORDER = ["harness", "raise", "ran-inactive", "active-not-run", "ran-twice", "missing-subscription", "leak:state-subscription",
          "leak:ev-listener", "leak:bus-listener", "missing:ev-listener", "missing:bus-listener", "leak:service",
-         "missing:service", "startup-shutdown", "leak:trigger-task"]
+         "missing:service", "leak:service-count", "missing:service-count", "service-owner", "startup-shutdown",
+         "leak:trigger-task"]
 
 
 def verdict(c):
